@@ -4,6 +4,7 @@
 package bundle
 
 import (
+	"strings"
 	"bytes"
 	"fmt"
 	"io"
@@ -13,6 +14,7 @@ import (
 	"testing"
 
 	"github.com/WICG/webpackage/go/bundle"
+	"github.com/WICG/webpackage/go/bundle/version"
 	"pgregory.net/rapid"
 	"verifsim/core"
 	"verifsim/gen"
@@ -32,8 +34,25 @@ type written struct {
 }
 
 func writeBundle(c *core.Ctx, b *bundle.Bundle, plan core.WriterPlan) written {
-	w := c.NewWriter("disk", plan)
 	var res written
+	if c.Chance("disk.callersCountingWriter", 1, 6) {
+		// the caller's destination is itself an exported CountingWriter through which it
+		// has already written a preamble: the bundle's count and trailing length are those
+		// of the bundle, and faults are positioned relative to the bundle's first byte
+		pre := c.Bytes("disk.preamble", 0, 40)
+		if plan.FailAt >= 0 {
+			plan.FailAt += len(pre)
+		}
+		w := c.NewWriter("disk", plan)
+		cw := bundle.NewCountingWriter(w)
+		cw.Write(pre)
+		res.panicI = c.Guard("Bundle.WriteTo", func() { res.n, res.err = b.WriteTo(cw) })
+		res.w = core.Unwrap(w)
+		res.data = res.w.Accepted[len(pre):]
+		c.Probe("destination is the caller's CountingWriter behind a preamble")
+		return res
+	}
+	w := c.NewWriter("disk", plan)
 	res.panicI = c.Guard("Bundle.WriteTo", func() { res.n, res.err = b.WriteTo(w) })
 	res.w = core.Unwrap(w)
 	res.data = res.w.Accepted
@@ -159,6 +178,39 @@ func sameAsModel(c *core.Ctx, rb *bundle.Bundle, lb *gen.LBundle, site string) {
 	}
 }
 
+// earlierRefusedWrite is a piece of history: an unrelated bundle whose header map
+// the writer must refuse (keys differing only in letter case, or a pseudo-header
+// name) was handed to the serializers earlier in this process.
+func earlierRefusedWrite(c *core.Ctx) {
+	if !c.Chance("earlierRefusedWrite", 1, 4) {
+		return
+	}
+	n := c.Int("earlierRefusedWrite.times", 1, 3)
+	for i := 0; i < n; i++ {
+		h := http.Header{"Content-Type": {"text/plain"}, "X-Early": {"a", "b"}}
+		switch c.Pick("earlierRefusedWrite.kind", 3) {
+		case 0:
+			h["x-early"] = []string{"c"}
+		case 1:
+			h[":status"] = []string{"200"}
+		default:
+			h["X-EARLY"] = []string{"d"}
+			h["content-type"] = []string{"text/html"}
+		}
+		u, _ := url.Parse("https://early.example/refused")
+		b := &bundle.Bundle{Version: version.Version(c.PickStr("earlierRefusedWrite.version", "b1", "b2")), PrimaryURL: u,
+			Exchanges: []*bundle.Exchange{{Request: bundle.Request{URL: u}, Response: bundle.Response{Status: 200, Header: h, Body: []byte("early")}}}}
+		var err error
+		if c.Bool("earlierRefusedWrite.viaHeaderSha256") {
+			c.Guard("Response.HeaderSha256", func() { _, err = b.Exchanges[0].Response.HeaderSha256() })
+		} else {
+			c.Guard("Bundle.WriteTo", func() { _, err = b.WriteTo(io.Discard) })
+		}
+		c.Event("earlier write of a header map that must be refused: err=%v", err != nil)
+	}
+	c.Probe("history: an earlier serialization was refused")
+}
+
 func drawWriterPlanOK(c *core.Ctx) core.WriterPlan {
 	return core.WriterPlan{FailAt: -1, ReaderFrom: c.Bool("disk.readerFrom")}
 }
@@ -170,6 +222,7 @@ func TestClean(t *testing.T) {
 		core.Run(t, "bundle/clean", func(c *core.Ctx) {
 			lb := gen.DrawBundle(c, 6, true)
 			c.Event("%s", lb.Describe())
+			earlierRefusedWrite(c)
 			wp := drawWriterPlanOK(c)
 			if len(lb.Exchanges) > 0 && !lb.ExpectWriteError && c.Chance("bundle.nonUTF8URL", 1, 30) {
 				// a URL that net/url accepts but that is not valid UTF-8 cannot be a CBOR text
@@ -350,6 +403,7 @@ func TestWriterFaults(t *testing.T) {
 				return
 			}
 			full := ok.data
+			earlierRefusedWrite(c)
 			plan := core.WriterPlan{FailAt: c.Int("disk.failAt", 0, len(full)), Short: c.Bool("disk.short"), ReaderFrom: c.Bool("disk.readerFrom")}
 			c.Event("%s; %d bytes; fail at %d short=%v rf=%v", lb.Describe(), len(full), plan.FailAt, plan.Short, plan.ReaderFrom)
 			wr := writeBundle(c, lb.ToRepo(), plan)
@@ -707,7 +761,7 @@ func TestReencode(t *testing.T) {
 				return
 			}
 			secs := p.RawSections(data)
-			op := c.PickStr("reencode.op", "unknown-section", "unknown-section", "reorder", "duplicate", "drop", "identity", "unknown-wrap", "length-cancel", "alias-index", "alias-index", "foreign-known-section")
+			op := c.PickStr("reencode.op", "unknown-section", "unknown-section", "reorder", "duplicate", "drop", "identity", "unknown-wrap", "length-cancel", "alias-index", "alias-index", "foreign-known-section", "variants-axes")
 			switch op {
 			case "unknown-section":
 				pos := c.Int("reencode.pos", 0, len(secs)-1) // anywhere before "responses"
@@ -755,6 +809,42 @@ func TestReencode(t *testing.T) {
 				secs = append(ns, secs[pos:]...)
 				c.Fault("reencode-section-of-another-version")
 				c.Event("section %q (%d bytes) inserted at position %d", name, len(data), pos)
+			case "variants-axes":
+				// a b1 index entry whose variants-value lists k two-valued axes (2^k possible
+				// keys: beyond 32- and 64-bit arithmetic for large k) with few or no locations
+				if p.Version != "b1" || len(p.Index) == 0 {
+					op = "identity"
+					break
+				}
+				ents := append([]refbundle.IndexEntry(nil), p.Index...)
+				a := c.Pick("reencode.a", len(ents))
+				k := c.PickInt("reencode.axes", 1, 2, 13, 14, 31, 32, 33, 62, 63, 64, 65, 128)
+				var axes []string
+				for i := 0; i < k; i++ {
+					nv := 2
+					if i == k-1 && c.Bool("reencode.lastAxis3") {
+						nv = 3
+					}
+					axes = append(axes, fmt.Sprintf("A%d;%s", i, strings.Join([]string{"x", "y", "z"}[:nv], ";")))
+				}
+				ents[a].Variants = []byte(strings.Join(axes, ", "))
+				locs := ents[a].Locs
+				switch c.Pick("reencode.axesLocs", 4) {
+				case 0:
+					locs = nil
+				case 1:
+					locs = locs[:1]
+				case 2:
+					locs = append(append([]refbundle.Loc(nil), locs...), locs[0])
+				}
+				ents[a].Locs = locs
+				for i := range secs {
+					if secs[i].Name == "index" {
+						secs[i].Data = refbundle.EncodeIndex(p.Version, ents)
+					}
+				}
+				c.Fault("reencode-variants-axes")
+				c.Event("index entry %d: variants-value with %d axes, %d locations", a, k, len(locs))
 			case "alias-index":
 				// two index entries designate the same offset; the second with the same or a
 				// different length (legal aliasing when equal, an inconsistent entry otherwise)
